@@ -57,6 +57,8 @@ def directed(tier):
 
 def gen_case(rng, tier, idx):
     """a fault-free base graph; run_case enumerates the placements"""
+    if idx < (2 if tier == "quick" else 10):
+        return {"kind": "realgraph", "archive_seed": rng.getrandbits(30), "fault_rate": rng.choice([0.4, 0.7, 0.95])}
     g = G.gen_spec(rng, tier, max_nodes=9 if tier == "quick" else 14, fault_rate=0.0, allow_seeded=False)
     for nd in g["nodes"]:
         if nd["kind"] == "parser":
@@ -134,7 +136,34 @@ def run_one(c, ctx):
         r.built.cleanup()
 
 
+def run_realgraph(spec, ctx):
+    """the repository's own parsers fail in every way real parsers fail; the accounting monitors need no expected values"""
+    from vpmon import realgraph as R
+    root, treat = R.make_archive(spec["archive_seed"], spec["fault_rate"])
+    try:
+        events, brokers, raised, g = R.evaluate(root, "serial")
+        br = brokers[0]
+        for mech, wit in R.engine_monitors(events, br, g, raised):
+            ctx.violation(mech, dict(wit, workload="the repository's own component graph"))
+        n = sum(len(v) for v in br.exceptions.values())
+        ctx.count("real_graph_evaluations")
+        ctx.count("faults_injected", n)
+        ctx.count("exceptions_recorded", n)
+        ctx.count("tracebacks_checked", len(br.tracebacks))
+        for lst in br.exceptions.values():
+            for e in lst:
+                ctx.seen("real_exception_types", type(e).__name__)
+        case = {"kind": "realgraph", "archive_seed": spec["archive_seed"], "fault_rate": spec["fault_rate"]}
+        ctx.note_case(case, n > 0)
+    finally:
+        R.cleanup(root)
+    ctx.evaluations -= 1
+    return False
+
+
 def run_case(spec, ctx):
+    if spec.get("kind") == "realgraph":
+        return run_realgraph(spec, ctx)
     if not spec.get("enumerate"):
         return run_one(spec, ctx)
     any_nt = False
